@@ -217,3 +217,14 @@ def _canary_clear_all_free():
 CANARIES = [("only alloc way 0 marks its identifier as allocated", _canary_second_way_not_marked),
             ("MultiPriorityEncoder merge step unshifted (duplicate identifiers in one cycle)", _canary_encoder_merge),
             ("clear frees everything instead of restoring init", _canary_clear_all_free)]
+
+
+def _callers_items():
+    from transactron.lib import PriorityEncoderAllocator
+
+    return [("PriorityEncoderAllocator(4, 2 alloc ways, 1 free way)", lambda: PriorityEncoderAllocator(4, 2, 1),
+             [("alloc0", ["alloc", 0]), ("alloc1", ["alloc", 1]), ("free0", ["free", 0]), ("replace", ["replace"])], [("clear", ["clear"])])]
+
+
+from ..excl import install as _install  # noqa: E402
+_install(globals(), _callers_items())
